@@ -224,6 +224,64 @@ def c09_mtx(ctx, case):
     ctx.close(X.astype(complex), exp, "corrmtx(%s) entries" % meth, rtol=0, atol=0)
 
 
+# ---- records with a large dynamic range between samples: every lag sum to the accuracy of *its own* terms -----------------
+@st.composite
+def burst_case(draw):
+    cplx = draw(st.booleans())
+    n = draw(st.integers(48, 400))
+    return {"n": n, "complex": cplx, "seed": draw(gen.seeds), "edge_db": draw(st.sampled_from([60, 70, 80, 90])),
+            "cross": draw(st.booleans()), "norm": draw(st.sampled_from(["biased", "unbiased", None])),
+            "fn": draw(st.sampled_from(["xcorr", "xcorr", "CORRELATION"]))}
+
+
+def _burst(case, salt):
+    rng = np.random.default_rng([case["seed"], salt])
+    n = case["n"]
+    t = (np.arange(n) - (n - 1) / 2.0) / ((n - 1) / 2.0)
+    env = 10.0 ** (-case["edge_db"] / 20.0 * t ** 2)          # 1 at the centre, edge_db below it at both ends
+    v = rng.standard_normal(n) + (1j * rng.standard_normal(n) if case["complex"] else 0)
+    return env * v
+
+
+@sub("C09.burst", strategy=burst_case(), quick=300, thorough=6000,
+     doc="tapered / pulse-like records (edge samples 60-90 dB below the centre): every lag, the outer ones included, equals its lag "
+         "sum to within 1e-10 x sum_n |x[n+k]||y[n]| (direct summation: <= N eps of that; a transform-based evaluation carries an "
+         "error relative to the zero-lag power instead)")
+def c09_burst(ctx, case):
+    x = _burst(case, 1)
+    y = _burst(case, 2) if case["cross"] else None
+    yy = x if y is None else y
+    N = len(x)
+    norm = case["norm"]
+    sig = {"clause": "burst", "fn": case["fn"]}
+    ctx.sig_on_exception = sig
+    ctx.cls(case["fn"], "complex" if case["complex"] else "real", "cross" if case["cross"] else "auto", "edge %d dB" % case["edge_db"])
+    ctx.nontrivial(True)
+    L = N - 1
+    if case["fn"] == "xcorr":
+        got, lags = spectrum.xcorr(x, y, maxlags=L, norm=norm)
+        got = np.asarray(got, dtype=complex)
+        ks = list(range(-L, L + 1))
+    else:
+        got = np.asarray(spectrum.CORRELATION(x, y, maxlags=L, norm=norm), dtype=complex)
+        ks = list(range(0, L + 1))
+    ctx.check(len(got) == len(ks), "%s returned %d values, expected %d" % (case["fn"], len(got), len(ks)), sig=sig)
+    ax, ay = np.abs(x), np.abs(yy)
+    worst, wk = 0.0, 0
+    for g, k in zip(got, ks):
+        if k >= 0:
+            e = _norm(ref.lagsum(x, yy, k), k, N, norm, x)
+            cond = _norm(float(np.dot(ax[k:], ay[:N - k])), k, N, norm, x)
+        else:
+            e = np.conj(_norm(ref.lagsum(yy, x, -k), -k, N, norm, x))
+            cond = _norm(float(np.dot(ay[-k:], ax[:N + k])), -k, N, norm, x)
+        r = abs(g - e) / cond if cond > 0 else (0.0 if g == e else np.inf)
+        if r > worst:
+            worst, wk = r, k
+    ctx.check(worst <= 1e-10, "%s: lag %d differs from its lag sum by %.3g of sum|x[n+k]||y[n]| (allowed 1e-10; N=%d, edges %d dB down)"
+              % (case["fn"], wk, worst, N, case["edge_db"]), sig=sig)
+
+
 # ---- long records (size-dependent code paths) --------------------------------
 @st.composite
 def long_case(draw):
